@@ -1,0 +1,48 @@
+//! C19 adapter, bitswap part: the prost-generated decoder.
+
+use super::schema;
+use crate::verif::hexd;
+
+use prost::Message;
+
+/// Canonical dump of `schema::bitswap::Message::decode`.
+pub(crate) fn pb(bytes: &[u8]) -> String {
+    match schema::bitswap::Message::decode(bytes) {
+        Err(_) => "err".into(),
+        Ok(m) => {
+            let wl = match &m.wantlist {
+                None => "none".to_string(),
+                Some(w) => {
+                    let es: Vec<String> = w
+                        .entries
+                        .iter()
+                        .map(|e| {
+                            format!(
+                                "{{b={},p={},c={},w={},s={}}}",
+                                hexd(&e.block),
+                                e.priority,
+                                e.cancel as u8,
+                                e.want_type,
+                                e.send_dont_have as u8
+                            )
+                        })
+                        .collect();
+                    format!("{{entries=[{}],full={}}}", es.join(","), w.full as u8)
+                }
+            };
+            let blocks: Vec<String> = m.blocks.iter().map(|b| hexd(b)).collect();
+            let payload: Vec<String> =
+                m.payload.iter().map(|b| format!("{{p={},d={}}}", hexd(&b.prefix), hexd(&b.data))).collect();
+            let pres: Vec<String> =
+                m.block_presences.iter().map(|b| format!("{{c={},t={}}}", hexd(&b.cid), b.r#type)).collect();
+            format!(
+                "ok wl={} blocks=[{}] payload=[{}] pres=[{}] pb={}",
+                wl,
+                blocks.join(";"),
+                payload.join(","),
+                pres.join(","),
+                m.pending_bytes
+            )
+        }
+    }
+}
